@@ -6,7 +6,7 @@ Tie:    harness/simdrv.c <-> Drivers/SimMain.lean on generated scenarios (profil
 """
 import simcheck
 
-PROFILES = ['oq', 'pq', 'mixed']
+PROFILES = ['oq', 'pq', 'mixed', 'pqreprio']
 
 
 def run(chk):
